@@ -4,8 +4,10 @@ import (
 	"fmt"
 
 	v1 "github.com/attestantio/go-eth2-client/api/v1"
+	apiv1capella "github.com/attestantio/go-eth2-client/api/v1/capella"
 	"github.com/attestantio/go-eth2-client/spec"
 	"github.com/attestantio/go-eth2-client/spec/altair"
+	"github.com/attestantio/go-eth2-client/spec/capella"
 	"github.com/attestantio/go-eth2-client/spec/phase0"
 	specqbft "github.com/bloxapp/ssv-spec/qbft"
 	spectypes "github.com/bloxapp/ssv-spec/types"
@@ -46,22 +48,88 @@ func (s *Sim) Duty(role spectypes.BeaconRole, slot phase0.Slot) *spectypes.Duty 
 	return d
 }
 
-// DomainData is the beacon signing domain (the testing beacon node serves one fork for all epochs).
-func DomainData(dt phase0.DomainType) phase0.Domain {
-	d, err := spectypes.ComputeETHDomain(dt, spectypes.GenesisForkVersion, spectypes.GenesisValidatorsRoot)
+// ForkVersion is the fork version in force at epoch: the genesis version, bumped once per fork epoch reached.
+func ForkVersion(forks []uint64, epoch phase0.Epoch) phase0.Version {
+	v := spectypes.GenesisForkVersion
+	for _, f := range forks {
+		if uint64(epoch) >= f {
+			v[0]++
+		}
+	}
+	return v
+}
+
+// DomainAt is compute_domain(type, fork_version(epoch), genesis_validators_root).
+func DomainAt(forks []uint64, epoch phase0.Epoch, dt phase0.DomainType) phase0.Domain {
+	d, err := spectypes.ComputeETHDomain(dt, ForkVersion(forks, epoch), spectypes.GenesisValidatorsRoot)
 	if err != nil {
 		panic(err)
 	}
 	return d
 }
 
-// SigningRoot is the eth2 signing root of obj under domain type dt.
-func SigningRoot(obj ssz.HashRoot, dt phase0.DomainType) [32]byte {
-	r, err := spectypes.ComputeETHSigningRoot(obj, DomainData(dt))
+// SigningRootAt is the eth2 signing root of obj under domain type dt for a duty at slot: the domain of that
+// slot's epoch, computed by the harness itself (never read from the runner).
+func (s *Sim) SigningRootAt(obj ssz.HashRoot, dt phase0.DomainType, slot phase0.Slot) [32]byte {
+	r, err := spectypes.ComputeETHSigningRoot(obj, DomainAt(s.Cfg.ForkEpochs, Network.EstimatedEpochAtSlot(slot), dt))
 	if err != nil {
 		panic(err)
 	}
 	return r
+}
+
+// ---- slot-dependent duty data (served by the beacon node wrapper and used for the "own" value) ----------
+// The fixtures of ssv-spec are constant over slots; a runner that re-used the previous duty's data would be
+// invisible with them. Every duty object therefore carries its slot.
+
+// BlockFor is the (blinded) capella block proposed at slot.
+func BlockFor(slot phase0.Slot, blinded bool) ssz.Marshaler {
+	if blinded {
+		b := &apiv1capella.BlindedBeaconBlock{}
+		if err := b.UnmarshalSSZ(testingutils.TestingBlindedBeaconBlockBytesV(spec.DataVersionCapella)); err != nil {
+			panic(err)
+		}
+		b.Slot = slot
+		return b
+	}
+	b := &capella.BeaconBlock{}
+	if err := b.UnmarshalSSZ(testingutils.TestingBeaconBlockBytesV(spec.DataVersionCapella)); err != nil {
+		panic(err)
+	}
+	b.Slot = slot
+	return b
+}
+
+// AggregateFor is the aggregate-and-proof served for slot.
+func AggregateFor(slot phase0.Slot) *phase0.AggregateAndProof {
+	ap := *testingutils.TestingAggregateAndProof
+	agg := *ap.Aggregate
+	data := *agg.Data
+	data.Slot = slot
+	agg.Data = &data
+	ap.Aggregate = &agg
+	return &ap
+}
+
+// SyncRootFor is the head root served for sync-committee messages at slot.
+func SyncRootFor(slot phase0.Slot) phase0.Root {
+	r := testingutils.TestingSyncCommitteeBlockRoot
+	for i := 0; i < 8; i++ {
+		r[24+i] = byte(uint64(slot) >> (8 * i))
+	}
+	return r
+}
+
+// ContributionsFor are the sync-committee contributions served for slot.
+func ContributionsFor(slot phase0.Slot) spectypes.Contributions {
+	var out spectypes.Contributions
+	for _, c := range testingutils.TestingContributionsData {
+		cc := *c
+		cc.Contribution.Slot = slot
+		cc.Contribution.BeaconBlockRoot = SyncRootFor(slot)
+		out = append(out, &cc)
+	}
+	return out
 }
 
 // ---- duty data ------------------------------------------------------------------------------------------
@@ -137,28 +205,24 @@ func (s *Sim) Value(duty *spectypes.Duty, variant string) []byte {
 		if alt {
 			blinded = !blinded
 		}
-		if blinded {
-			cd.DataSSZ = testingutils.TestingBlindedBeaconBlockBytesV(spec.DataVersionCapella)
-		} else {
-			cd.DataSSZ = testingutils.TestingBeaconBlockBytesV(spec.DataVersionCapella)
-		}
+		cd.DataSSZ = must(BlockFor(duty.Slot, blinded).MarshalSSZ())
 	case spectypes.BNRoleAggregator:
 		cd.Version = spec.DataVersionPhase0
-		ap := *testingutils.TestingAggregateAndProof
+		ap := *AggregateFor(duty.Slot)
 		if alt {
 			ap.AggregatorIndex = 77
 		}
 		cd.DataSSZ = must(ap.MarshalSSZ())
 	case spectypes.BNRoleSyncCommittee:
 		cd.Version = spec.DataVersionPhase0
-		r := testingutils.TestingSyncCommitteeBlockRoot
+		r := SyncRootFor(duty.Slot)
 		if alt {
 			r = phase0.Root{0xcc, 0xcc}
 		}
 		cd.DataSSZ = append([]byte(nil), r[:]...)
 	case spectypes.BNRoleSyncCommitteeContribution:
 		cd.Version = spec.DataVersionBellatrix
-		c := testingutils.TestingContributionsData
+		c := ContributionsFor(duty.Slot)
 		if alt {
 			c = c[:2]
 		}
@@ -340,7 +404,7 @@ func ConsensusSSV(id spectypes.MessageID, sm *specqbft.SignedMessage) *spectypes
 func (s *Sim) Partial(signer spectypes.OperatorID, key *bls.SecretKey, typ spectypes.PartialSigMsgType, slot phase0.Slot, objs []ssz.HashRoot, dt phase0.DomainType) *spectypes.SignedPartialSignatureMessage {
 	msgs := spectypes.PartialSignatureMessages{Type: typ, Slot: slot}
 	for _, o := range objs {
-		r := SigningRoot(o, dt)
+		r := s.SigningRootAt(o, dt, slot)
 		msgs.Messages = append(msgs.Messages, &spectypes.PartialSignatureMessage{
 			PartialSignature: key.SignByte(r[:]).Serialize(), SigningRoot: r, Signer: signer})
 	}
@@ -369,13 +433,13 @@ func PartialSSV(id spectypes.MessageID, m *spectypes.SignedPartialSignatureMessa
 
 // VerifyValidatorSig checks, with the harness's own BLS call, that sig is the validator's signature
 // over obj under domain type dt.
-func (s *Sim) VerifyValidatorSig(sig []byte, obj ssz.HashRoot, dt phase0.DomainType) bool {
+func (s *Sim) VerifyValidatorSig(sig []byte, obj ssz.HashRoot, dt phase0.DomainType, slot phase0.Slot) bool {
 	var bs bls.Sign
 	// fresh copy: cgo refuses slices that point into Go structs holding other Go pointers
 	if err := bs.Deserialize(append([]byte(nil), sig...)); err != nil {
 		return false
 	}
-	r := SigningRoot(obj, dt)
+	r := s.SigningRootAt(obj, dt, slot)
 	return bs.VerifyByte(s.KS.ValidatorPK, r[:])
 }
 
